@@ -10,5 +10,15 @@ CONSTANTS
   FailSum = 1
   MaxFail = 2
   Sim = FALSE
+  Hist = FALSE
+  NSel = 1
+  MaxBlocks = 0
+  MaxSel = 0
+  HRs = {0}
+  HSums = {0}
+  S0Min = 1
+  Kinds = {"stay"}
+  Keys = {1}
+  Late = FALSE
 INVARIANTS Member ImplMatchesAbstract LocalIndependent NoRepeat
 CHECK_DEADLOCK FALSE
